@@ -51,3 +51,68 @@ def ready(socket_type=None, identity=None, extra=()):
 
 def hx(b):
     return b.hex() if len(b) else "."
+
+
+def parse_greeting(g):
+    """reference check of a 64-byte ZMTP 3.x greeting; returns (major, minor, mechanism, as_server) or a string (what is wrong)"""
+    if len(g) != 64:
+        return f"greeting has {len(g)} bytes"
+    if g[0] != 0xFF or g[9] != 0x7F:
+        return "bad signature"
+    if any(g[1:9]):
+        return "signature padding not zero"
+    mech = g[12:32]
+    name = mech.rstrip(b"\x00")
+    if b"\x00" in name:
+        return "mechanism not NUL-padded"
+    if any(g[33:64]):
+        return "filler not zero"
+    return (g[10], g[11], name, g[32])
+
+
+def parse_frames(data):
+    """strict RFC 23 framing: list of (flags, body); raises ValueError on anything malformed or left over"""
+    out = []
+    i = 0
+    while i < len(data):
+        fl = data[i]
+        if fl & ~7:
+            raise ValueError(f"reserved flag bits set: {fl:#x}")
+        if fl & 2:
+            if i + 9 > len(data):
+                raise ValueError("truncated long size")
+            n = int.from_bytes(data[i + 1:i + 9], "big")
+            i += 9
+            if n <= 255:
+                raise ValueError(f"long size used for a body of {n} bytes")
+        else:
+            if i + 2 > len(data):
+                raise ValueError("truncated short size")
+            n = data[i + 1]
+            i += 2
+        if i + n > len(data):
+            raise ValueError("truncated body")
+        out.append((fl, data[i:i + n]))
+        i += n
+    return out
+
+
+def parse_command(body):
+    """(name, [(key, value)]) of a command body; raises ValueError"""
+    if not body or 1 + body[0] > len(body):
+        raise ValueError("bad command name")
+    name = body[1:1 + body[0]]
+    i = 1 + body[0]
+    props = []
+    while i < len(body):
+        kl = body[i]
+        if i + 1 + kl + 4 > len(body):
+            raise ValueError("truncated property")
+        k = body[i + 1:i + 1 + kl]
+        vl = int.from_bytes(body[i + 1 + kl:i + 5 + kl], "big")
+        v = body[i + 5 + kl:i + 5 + kl + vl]
+        if len(v) != vl:
+            raise ValueError("truncated property value")
+        props.append((k, v))
+        i += 5 + kl + vl
+    return name, props
